@@ -442,7 +442,12 @@ def preproc_correct_split_approach_retract(apret):
     """
     force = apret["force"]
 
-    idp = poc.poc_deviation_from_baseline(force)
+    # Only the initial approach part of the curve is searched for the
+    # contact point (same clipping as in `poc.compute_poc`); otherwise the
+    # baseline window (first 10% of the data) may cover the entire approach
+    # part for curves with a long retract part.
+    idp = poc.poc_deviation_from_baseline(
+        poc.compute_preproc_clip_approach(force))
     if idp and not np.isnan(idp):
         idturn = find_turning_point(
             tip_position=apret["tip position"],
